@@ -19,6 +19,7 @@ TEXT = ("Decides the two clauses of reopen-equality that are visible in the shap
         "stage objects (write effect on DataStorage.stage, e.g. the automatic array resolution) is reachable from the "
         "pack write. Does not decide state "
         "equality after reopen for all contents (a round trip over runtime values).")
+TECHNIQUE = 'static analysis over rustc MIR: finite abstract interpretation of the pack scanner vs a reference JSON object-boundary machine, writer/reader table extraction for blocks and packs, effect-ordered reachability in commit'
 TRUSTED = ["rustc nightly MIR", "serde_json::to_string emits RFC 8259 JSON (braces, quotes and backslashes unescaped only as structure / inside strings as written)"]
 
 BRACE_OPEN, BRACE_CLOSE, QUOTE, BACKSLASH = 0x7B, 0x7D, 0x22, 0x5C
